@@ -44,7 +44,7 @@ RULE = ("seeded point sets from the C11 zoo (uniform, normal, clustered 1e-9 bal
         "smallest non-empty leaf population; distinct = distinct hash of (coordinates, leaf size, strategy, numpy seed, queries)")
 REQUIRED = {"termination/build": 300, "structure/partition": 200, "structure/leaf_box": 200, "structure/node_ids": 200,
             "knn/count": 1500, "knn/distances": 800, "knn/order": 1500, "knn/indices": 1500, "radius/set": 1500}
-CASE_TIMEOUT = {"quick": 60.0, "thorough": 300.0}
+CASE_TIMEOUT = {"quick": 30.0, "thorough": 300.0}
 ASSUMPTIONS = ["coordinates and query points are finite and far from overflow/underflow of squared differences (|x| <= 1e26)",
                "k >= 1, radius >= 0 and finite, max_leaf_size >= 1",
                "distances within 1e-12 relative of each other (of the radius) are ties: either answer is accepted; on integer "
